@@ -138,6 +138,22 @@ def exc_detail(exc):
 
 def _hyp():
     import hypothesis
+    try:
+        # Hypothesis >= 6.13x seeds some draws with constants harvested from the source of
+        # locally imported modules (ours and the library under test); generated inputs must
+        # depend on the seed and the strategy only
+        from hypothesis.internal.conjecture import providers as _prov
+        if hasattr(_prov, '_get_local_constants') and not getattr(_prov, '_pv_patched', False):
+            empty = _prov._get_local_constants()
+            try:
+                blank = type(empty)()
+            except Exception:
+                blank = None
+            if blank is not None:
+                _prov._get_local_constants = lambda: blank
+                _prov._pv_patched = True
+    except Exception:
+        pass
     return hypothesis
 
 
